@@ -3,35 +3,55 @@ EXTENDS RateLimiterFilter, Json
 VARIABLE out
 
 U(ms, ex, pre, ref) == [ms |-> ms, exact |-> ex, prefix |-> pre, ref |-> ref]
-Po(name, l, th) == [name |-> name, L |-> l, th |-> th]
+Po(name, l, tmo, per) == [name |-> name, L |-> l, tmo |-> tmo, per |-> per]
 A   == <<"/", "a">>
 AX  == <<"/", "a", "/", "x">>
 B   == <<"/", "b">>
 No  == <<>>
 
-(* timeout 0 (th 0), timeout < period (th 1), = period (2), 1.5 periods (3) *)
+(* fully explicit policies (period 1h): timeout 0, = period, 1.5 periods *)
+P1  == Po("p1", 2, 0, "h")
+P2  == Po("p2", 1, 2, "h")
+P2x == Po("p2", 1, 3, "h")
+(* partially defaulted: timeout omitted (100 ms), period 1h.  (limitForPeriod cannot be omitted:   *)
+(* filters.NewSpec validates the parsed value 0 against minimum=1.)                               *)
+P3  == Po("p3", 3, -1, "h")
+(* timeout and period omitted (100 ms / 10 ms: horizon 10), limit 2;  period omitted, timeout 0 *)
+P4  == Po("p4", 2, -1, "d")
+P5  == Po("p5", 1, 0, "d")
+
+S(id, fam, def, pols, urls) == [id |-> id, fam |-> fam, def |-> def, pols |-> pols, urls |-> urls]
+R1 == U(<<"GET">>, AX, No, "")
+R2 == U(<<>>, No, A, "p2")
+
 SpecU ==
-  { [id |-> 1, def |-> "p1", pols |-> <<Po("p1", 2, 0), Po("p2", 1, 2)>>,
-     urls |-> <<U(<<"GET">>, AX, No, ""), U(<<>>, No, A, "p2")>>],
-    (* same as 1 (a reload that changes nothing) but a new object *)
-    [id |-> 2, def |-> "p1", pols |-> <<Po("p1", 2, 0), Po("p2", 1, 2)>>,
-     urls |-> <<U(<<"GET">>, AX, No, ""), U(<<>>, No, A, "p2")>>],
+  { S(1, 1, "p1", <<P1, P2>>, <<R1, R2>>),
+    (* byte-identical to 1: a reload that changes nothing *)
+    S(2, 1, "p1", <<P1, P2>>, <<R1, R2>>),
     (* rule order swapped: first match changes, both rules unchanged *)
-    [id |-> 3, def |-> "p1", pols |-> <<Po("p1", 2, 0), Po("p2", 1, 2)>>,
-     urls |-> <<U(<<>>, No, A, "p2"), U(<<"GET">>, AX, No, "")>>],
+    S(3, 1, "p1", <<P1, P2>>, <<R2, R1>>),
     (* policy p2 changed (rule 2 gets a fresh limiter), p1 unchanged; a rule added *)
-    [id |-> 4, def |-> "p1", pols |-> <<Po("p1", 2, 0), Po("p2", 1, 3)>>,
-     urls |-> <<U(<<"GET">>, AX, No, ""), U(<<>>, No, A, "p2"), U(<<"POST">>, B, A, "p1")>>],
+    S(4, 1, "p1", <<P1, P2x>>, <<R1, R2, U(<<"POST">>, B, A, "p1")>>),
     (* default policy switched: the rule with the empty reference is changed *)
-    [id |-> 5, def |-> "p2", pols |-> <<Po("p1", 2, 0), Po("p2", 1, 2)>>,
-     urls |-> <<U(<<"GET">>, AX, No, ""), U(<<>>, No, A, "p2")>>],
+    S(5, 1, "p2", <<P1, P2>>, <<R1, R2>>),
     (* methods changed on rule 1, rule 2 dropped *)
-    [id |-> 6, def |-> "p1", pols |-> <<Po("p1", 2, 0), Po("p2", 1, 2)>>,
-     urls |-> <<U(<<"GET", "PUT">>, AX, No, "")>>] }
+    S(6, 1, "p1", <<P1, P2>>, <<U(<<"GET", "PUT">>, AX, No, "")>>),
+    (* family 2: the default policy leaves fields to their defaults *)
+    S(7, 2, "p3", <<P3, P2>>, <<U(<<>>, No, A, ""), U(<<"POST">>, B, No, "p2")>>),
+    S(8, 2, "p3", <<P3, P2>>, <<U(<<>>, No, A, ""), U(<<"POST">>, B, No, "p2")>>),
+    (* only the OTHER policy changed / only another rule added *)
+    S(9, 2, "p3", <<P3, P2x>>, <<U(<<>>, No, A, ""), U(<<"POST">>, B, No, "p2")>>),
+    S(10, 2, "p3", <<P3, P2>>, <<U(<<>>, No, A, ""), U(<<"POST">>, B, No, "p2"), U(<<"GET">>, B, No, "p3")>>),
+    (* family 3: policies referenced by name that leave the period (and the timeout) to the defaults *)
+    S(11, 3, "p1", <<P1, P4, P5>>, <<U(<<"GET">>, AX, No, "p4"), U(<<>>, No, A, "p5")>>),
+    S(12, 3, "p1", <<P1, P4, P5>>, <<U(<<"GET">>, AX, No, "p4"), U(<<>>, No, A, "p5")>>),
+    S(13, 3, "p1", <<P1, P4, P5>>, <<U(<<"GET">>, AX, No, "p4"), U(<<>>, No, A, "")>>) }
 
 ReqU == { [m |-> "GET", path |-> AX], [m |-> "POST", path |-> AX], [m |-> "GET", path |-> A],
           [m |-> "POST", path |-> B], [m |-> "GET", path |-> B], [m |-> "PUT", path |-> AX],
           [m |-> "GET", path |-> <<"/">>] }
+
+BurstU == {2, 10}
 
 GInit == Init /\ out = ToJson(last)
 GNext == Next /\ out' = ToJson(last')
